@@ -194,6 +194,15 @@ def parseEv (toks : List String) : Ev × List Note :=
   | ["ev", _, "drop", f, w] => (.drop (f.toNat?.getD 0) (w == "woken=1"), [])
   | _ => (.other, [])
 
+/-- alternately from the front and from the back -/
+def mixedOrder : Nat → List Nat → List Nat
+  | 0, _ => []
+  | _, [] => []
+  | fuel+1, x :: xs =>
+    x :: (match xs.reverse with
+          | [] => []
+          | y :: ys => y :: mixedOrder fuel ys.reverse)
+
 def applyNotes (id pre : String) (a : DAcc) (ns : List Note) : DAcc :=
   ns.foldl (fun a n => match n with
     | .cmp facet what model impl => a.cmp id facet (pre ++ what) model impl
@@ -424,6 +433,13 @@ def checkCase (lines : Array String) : Array String := Id.run do
         a := a.prop id "C14" "iter_rev" (topoOrderB realG.flip (kvCsv rest "iter_rev"))
         a := a.prop id "C14" "insertion" (kvCsv rest "insertion" == List.range bo.n && kvCsv rest "insertion_mut" == List.range bo.n
               && kvCsv rest "insertion_idx" == (List.range bo.n).map (fun i => i * 1000 + i))
+        if (kv rest "map_again").isSome then
+          -- "visit every function exactly once": polled again after its end, `map` stays at the end;
+          -- `iter_insertion` is double-ended and exact-size
+          a := a.prop id "C14" "map stays at its end when polled again" ((kv rest "map_again") == some "0")
+          a := a.prop id "C14" "insertion order from the back / from both ends / exact size"
+            (kvCsv rest "insertion_rev" == (List.range bo.n).reverse && (kv rest "insertion_len") == some (toString bo.n)
+             && kvCsv rest "insertion_mixed" == mixedOrder bo.n (List.range bo.n))
     | "tryseq" :: rest =>
       match built, modelG with
       | some bo, some G =>
